@@ -34,7 +34,10 @@ Twins == {Bin("AND", Bin("=", Fld(x, c), [k |-> "num", n |-> "1"]), Bin("=", Fld
 Mixed == {[k |-> "in", a |-> x, items |-> <<[k |-> "num", n |-> "0"], z>>] : x \in Core, z \in {Fld("v", "a"), Fld("t", "b"), Fld("s2i", "a")}}
          \cup {[k |-> "call", f |-> "FN", args |-> <<[k |-> "num", n |-> "0"], x, [k |-> "num", n |-> "1"], z>>] : x \in Core, z \in {Fld("v", "a"), Fld("e2", "b")}}
          \cup {[k |-> "between", a |-> [k |-> "num", n |-> "5"], lo |-> x, hi |-> z] : x \in Core, z \in {Fld("v", "a"), Fld("u", "b")}}
-Trees == Pairs \cup Triples \cup Twins \cup Mixed
+\* the library's own Function subclasses (aggregate, analytic WITHOUT an OVER clause, cast, multi-argument): the executor builds the class the name stands for
+Classes == {Bin("=", [k |-> "call", f |-> fname, args |-> <<x>>], z) : fname \in {"AN:MEDIAN", "AN:SUM", "AGG:COUNT", "FN:UPPER", "FN:CAST"}, x \in Core, z \in {Fld("v", "a"), Fld("t", "a")}}
+           \cup {Bin("+", [k |-> "call", f |-> fname, args |-> <<x, y>>], z) : fname \in {"AN:LAG", "FN:COALESCE", "FN:NULLIF"}, x \in {Fld("t", "a"), Fld("u", "b")}, y \in Core, z \in {Fld("v", "a")}}
+Trees == Pairs \cup Triples \cup Twins \cup Mixed \cup Classes
 
 VARIABLES kind, item
 Init == \/ kind = "variant" /\ item \in Variants
